@@ -6,6 +6,7 @@ import (
 	"go/token"
 	"go/types"
 	"os"
+	"runtime"
 	"sort"
 	"strings"
 
@@ -57,6 +58,7 @@ type Exec struct {
 	globals     map[*ssa.Global]*Object
 	initDone    map[*ssa.Package]bool
 	initLenient int
+	curInitFn   *ssa.Function
 	fresh       map[string]int
 	inputs      []inputVar
 	steps       int
@@ -72,7 +74,7 @@ type Exec struct {
 	harness  string
 	caseVals map[string]int64
 	verbose  bool
-	concrete map[string]uint64 // concrete input vector (differential mode)
+	concrete map[string]string // concrete input vector (differential mode)
 
 	// results
 	Paths        int
@@ -172,6 +174,15 @@ func (ex *Exec) runPath(entry *ssa.Function, prefix []int) {
 				case unsupportedErr:
 					reason = "unsupported"
 					msg := fmt.Sprintf("UNSUPPORTED %s at %s", e.msg, strings.Join(ex.stack(), " <- "))
+					ex.addInconclusive(msg)
+				case runtime.Error:
+					reason = "unsupported"
+					buf := make([]byte, 4096)
+					buf = buf[:runtime.Stack(buf, false)]
+					msg := fmt.Sprintf("UNSUPPORTED (engine: %v) at %s", e, strings.Join(ex.stack(), " <- "))
+					if ex.verbose {
+						msg += "\n" + string(buf)
+					}
 					ex.addInconclusive(msg)
 				default:
 					panic(r)
@@ -455,6 +466,9 @@ func (ex *Exec) callValue(fv Value, args []Value, site ssa.Instruction) Value {
 
 func (ex *Exec) callFunction(fn *ssa.Function, args []Value, bindings []Value, site ssa.Instruction) Value {
 	name := fn.String()
+	if fn.Synthetic == "package initializer" && fn != ex.curInitFn {
+		return nil // imported packages are initialised lazily, when one of their globals is touched
+	}
 	if h := ex.lookupStub(fn, name); h != nil {
 		ex.StubsUsed[stubDisplayName(fn, name)]++
 		return h(ex, fn, args)
@@ -548,7 +562,10 @@ func (ex *Exec) runFrame(fr *Frame) Value {
 					}
 					fr.symIf[in]++
 					if fr.symIf[in] > ex.unwind {
-						ex.addInconclusive(fmt.Sprintf("unwinding bound %d exceeded at %s", ex.unwind, ex.posStr(fr.pos)))
+						// recorded as a finding: the driver replays it natively; only a run that
+						// does not terminate there either is a violation, otherwise the bound was too small
+						ex.Obligations++
+						ex.recordFinding("unwind", fmt.Sprintf("unwinding bound %d exceeded", ex.unwind), TTrue, "")
 						panic(pathEnd{"unwind"})
 					}
 					taken = ex.branch(c)
@@ -575,7 +592,11 @@ func (ex *Exec) runFrame(fr *Frame) Value {
 				ex.oblige(TFalse, "panic:explicit", ex.describe(v))
 				panic(pathEnd{"violation"})
 			default:
-				ex.step(fr, instr)
+				if ex.initLenient > 0 {
+					ex.stepLenient(fr, instr)
+				} else {
+					ex.step(fr, instr)
+				}
 			}
 		}
 		if next == nil {
@@ -583,6 +604,26 @@ func (ex *Exec) runFrame(fr *Frame) Value {
 		}
 		prev, block = block, next
 	}
+}
+
+// stepLenient executes one instruction of a package initialiser; what the engine cannot model
+// leaves an opaque value behind instead of aborting the whole initialiser.
+func (ex *Exec) stepLenient(fr *Frame, instr ssa.Instruction) {
+	saved := ex.curFrame
+	defer func() {
+		if r := recover(); r != nil {
+			_, isU := r.(unsupportedErr)
+			_, isRT := r.(runtime.Error)
+			if !isU && !isRT {
+				panic(r)
+			}
+			ex.curFrame = saved
+			if v, ok := instr.(ssa.Value); ok {
+				fr.env[v] = &Opaque{What: "init:" + fmt.Sprint(r)}
+			}
+		}
+	}()
+	ex.step(fr, instr)
 }
 
 func (ex *Exec) describe(v Value) string {
@@ -754,11 +795,12 @@ func (ex *Exec) ensureInit(pkg *ssa.Package) {
 	if initFn == nil || initFn.Blocks == nil {
 		return
 	}
-	saved := ex.curFrame
+	saved, savedInit := ex.curFrame, ex.curInitFn
+	ex.curInitFn = initFn
 	ex.initLenient++
 	ex.runInitLenient(initFn)
 	ex.initLenient--
-	ex.curFrame = saved
+	ex.curFrame, ex.curInitFn = saved, savedInit
 }
 
 // runInitLenient executes a package initialiser, statement by statement; calls to other packages'
@@ -809,6 +851,9 @@ func (ex *Exec) step(fr *Frame, instr ssa.Instruction) {
 	case *ssa.FieldAddr:
 		p := ex.get(fr, in.X).(*Ptr)
 		ex.nilCheck(p)
+		if p.View != nil {
+			panic(unsupported("field address through an unsafe pointer view"))
+		}
 		fr.env[in] = &Ptr{Obj: p.Obj, Path: pathAppend(p.Path, PathElem{I: in.Field})}
 	case *ssa.Index:
 		fr.env[in] = ex.index(ex.get(fr, in.X), ex.get(fr, in.Index).(*Term), in.X.Type(), in.Index.Type())
@@ -880,7 +925,7 @@ func (ex *Exec) nilCheck(p *Ptr) {
 }
 
 func (ex *Exec) alloc(et types.Type, name string) *Ptr {
-	if at, ok := et.Underlying().(*types.Array); ok && isByteType(at.Elem()) && at.Len() > 64 {
+	if at, ok := et.Underlying().(*types.Array); ok && isByteType(at.Elem()) && at.Len() > 0 {
 		o := ex.newBytes(zeroLayer(), BV(64, uint64(at.Len())), name)
 		o.Typ = et
 		return &Ptr{Obj: o, Off: BV(64, 0)}
